@@ -6,6 +6,18 @@ first request (answer after the body, before reading it, without ever reading it
 segmentations (one read, every two-way split on a boundary lattice, one byte per read), and
 explores the timing of gate releases against the arrival of later segments (Explorer A).
 
+Server-header axis (6th scenario element "nohdr"): keep_alive_max_requests in {1, 2} with include_date_header and
+include_server_header both off (no alt-svc), i.e. the server has no header of its own to add except the
+`connection: close` the rule demands; every pipeline, unsplit and split on each request boundary (thorough: also one
+byte per read), applications answering after the body / gated (thorough: every behaviour).  Same oracle.
+
+read_timeout axis (segmentation "rt"): pipelines of 2-3 requests whose first application is gated, the whole
+pipeline in one read, config.read_timeout = 7 (every other scenario: None) and two clock jumps to the next armed
+deadline as a source of their own, plus a lapse of 10 s that can only happen while no deadline is armed.  While the first response is outstanding the reader is parked behind it inside
+the protocol: no read deadline runs there, so whatever time passes the later requests are served once the gate
+opens (not-reused / wrong-response as for every other segmentation); afterwards the idle timer (5) or the read
+deadline ends the connection.
+
 Oracle (the reuse rule is a reference model written from RFC 7230 6.3 / the property text):
   parse-error          the client parser rejects the byte stream (interleaved / corrupt responses)
   wrong-response       response i does not carry the tag of request i / is incomplete
@@ -29,15 +41,24 @@ ID = "C06"
 LEVEL = "model_checking"
 TECHNIQUE = ("bounded exhaustive enumeration of pipelines x segmentations x application pacing with stateless "
              "deviation-bounded exploration of release/arrival timing on the real H11Protocol/TCPServer")
-RULE = ("scenario = engine x pipeline (1..3 request shapes) x keep_alive_max_requests x app behaviour x segmentation; "
+RULE = ("scenario = engine x pipeline (1..3 request shapes) x keep_alive_max_requests x app behaviour x segmentation "
+        "[x server adds no date / server header]; "
         "Explorer A interleaves gate releases with segment arrival (M,S bounds); non-trivial = instance ran and a "
         "non-default choice was taken or the scenario has more than one request; distinct by observation digest")
 ASSUMPTIONS = [
     "when the application finishes its response before the server has consumed the whole request the reuse decision "
     "is timing dependent: either outcome is accepted, only safety (no interleaving, no crossed bodies) is demanded",
     "environment model bound to real sockets by ./check selftest",
+    "read_timeout axis: the clock only jumps to armed deadlines, at quiescence; the pipeline arrives in one read, so "
+    "the reader is parked for as long as the gate is closed (a later segment would find the reader waiting for "
+    "bytes, where the read deadline legitimately ends the connection: not generated)",
 ]
-BOUNDS_DOC = {"quick": "pipelines <=2 (+ a set of triples), boundary-lattice splits, M<=1 S<=2", "thorough": "all pairs and triples, every split point of pairs, M<=2 S<=3, trio R<=1"}
+BOUNDS_DOC = {"quick": "pipelines <=2 (+ a set of triples), boundary-lattice splits, M<=1 S<=2; read_timeout 7 on gated pipelines "
+                       "of 2 (asyncio also the triples) in one read with 2 clock jumps; date+server headers off x max in {1,2} x "
+                       "kinds after/gated x {one read, split on each request boundary}",
+              "thorough": "all pairs and triples, every split point of pairs, M<=2 S<=3, trio R<=1; read_timeout 7 on every "
+                          "gated pipeline of 2-3 in one read with 2 clock jumps; date+server headers off x max in {1,2} x "
+                          "every kind x {one read, request boundaries, byte by byte}"}
 BUDGET = {"quick": 300, "thorough": 1800}
 
 SHAPES = {
@@ -54,6 +75,9 @@ SHAPES = {
 # abort: raises after the response start + one chunk (no content-length); after_ka: like after, and the application
 # sends its own `connection: keep-alive` response header
 APP_KINDS = ["after", "before", "noread", "gated", "abort", "after_ka"]
+
+
+READ_TIMEOUT = 7  # segmentation "rt"; longer than keep_alive_timeout (5): an idle connection is ended by the idle timer
 
 
 def req_bytes(i: int, shape: str) -> tuple:
@@ -127,8 +151,15 @@ def scenarios(tier: str) -> List[Any]:
                         segs = [sg for sg in segs if sg == "whole" or sg[0] == "bound"]
                     if kind == "gated" and len(pl) >= 2:
                         segs.append("wfail")  # the peer goes away (failed write) while response 0 is being written
+                        segs.append("rt")  # read_timeout set, the clock jumps while the reader is parked behind response 0
                     for seg in segs:
                         out.append((engine, pl, mx, kind, seg))
+                    if mx in (1, 2) and kind != "after_ka" and (tier != "quick" or kind in ("after", "gated")):
+                        # configuration axis: the server adds no headers of its own (include_date_header and
+                        # include_server_header off, no alt-svc), so `connection: close` is all it has to add
+                        nsegs = ["whole"] + [("bound", j) for j in range(1, len(pl))] + (["bytes"] if tier != "quick" else [])
+                        for seg in nsegs:
+                            out.append((engine, pl, mx, kind, seg, "nohdr"))
     return out
 
 
@@ -143,10 +174,11 @@ def bounds(tier: str, params: Any) -> dict:
 
 
 def build(params: Any) -> tuple:
-    engine, pl, mx, kind, seg = params
+    engine, pl, mx, kind, seg = params[:5]
+    nohdr = len(params) > 5 and params[5] == "nohdr"
     reqs = [req_bytes(i, s) for i, s in enumerate(pl)]
     blob = b"".join(r for r, _ in reqs)
-    if seg in ("whole", "wfail"):
+    if seg in ("whole", "wfail", "rt"):
         parts = [blob]
     elif seg == "bytes":
         parts = [blob[i:i + 1] for i in range(len(blob))]
@@ -160,9 +192,18 @@ def build(params: Any) -> tuple:
                ("app", [("release", "g0")]), ("clock", [("tick",)])]
     if seg == "wfail":
         sources.insert(1, ("fault", [("wfail", 0)]))
+    cfg = {"keep_alive_timeout": 5, "keep_alive_max_requests": mx}
+    if nohdr:
+        cfg.update({"include_date_header": False, "include_server_header": False})
+    if seg == "rt":
+        cfg["read_timeout"] = READ_TIMEOUT
+        # jumps to armed deadlines, and a plain lapse of time that is only possible while NO deadline is armed
+        # (i.e., on this history, while the reader is parked and the idle timer is stopped)
+        sources[-1] = ("clock", [("tick",), ("tick",)])
+        sources.append(("lapse", [("pause_dt", READ_TIMEOUT + 3)]))
     sc = {"level": "conn", "conns": {0: {"carrier": "h1", "methods": [SHAPES[s][0] for s in pl]}},
           "client_factory": make_client, "apps": apps,
-          "config": {"keep_alive_timeout": 5, "keep_alive_max_requests": mx},
+          "config": cfg,
           "sources": sources, "trio_rev": True, "sigs": seg != "bytes"}
     return engine, sc
 
@@ -174,7 +215,7 @@ def _must_close(shape: str, n: int, mx: int) -> bool:
 
 
 def oracle(w: Any, params: Any) -> List[dict]:
-    engine, pl, mx, kind, seg = params
+    engine, pl, mx, kind, seg = params[:5]
     out: List[dict] = []
     rec = w.conns[0]
     cl = rec.client.h1
